@@ -228,9 +228,7 @@ def sortDests (ds : List Dest) : List Dest := ds.mergeSort (fun a b => decide (a
 * `IndexError` / `AssertionError`: `make_page_bookmark_tree` (reached after the page loop);
 * `needsHtml` (variant `pdf/ua-1`): `pdfua` calls `document.build_element_structure` once per page stream, which reads
   `document._html` → `AttributeError` on a document made by the constructor alone (no `_html`, or `None` on its
-  copies); with no page at
-  all the loop variable `page_number` is read unbound after the loop (`UnboundLocalError`, carried as a
-  `.noneAttribute` whose site starts with `UnboundLocalError`). -/
+  copies) that has at least one page; with no page the loop does not run (`page_number = -1` before it). -/
 def generatePdf (zoom : Rat) (needsHtml : Bool) (d : Document) : Except PyErr PdfOut :=
   let s := scale zoom
   if s = 0 ∧ d.pages ≠ [] then .error (.zeroDivision "generate_pdf.page_rectangle")
@@ -239,8 +237,7 @@ def generatePdf (zoom : Rat) (needsHtml : Bool) (d : Document) : Except PyErr Pd
     match docOutlines s 0 ⟨[], 0⟩ d.pages with
     | .error e => .error e
     | .ok outlines =>
-      if needsHtml ∧ d.pages = [] then .error (.noneAttribute "UnboundLocalError:pdfua.page_number")
-      else if needsHtml ∧ d.hasHtml = false then .error (.noneAttribute "Document._html")
+      if needsHtml ∧ d.hasHtml = false ∧ d.pages ≠ [] then .error (.noneAttribute "Document._html")
       else .ok { pages := pagesPdf s d.pages la, names := sortDests (allDests s 0 d.pages la), outlines := outlines }
 
 /-! ### pydyf number formatting -/
